@@ -75,7 +75,13 @@ int main(int argc, char **argv) {
     Rng rng(a.seed * 7919 + a.worker * 104729 + round);
     int nt = TC[(round + a.worker / 2) % 4];
     std::vector<Script> scripts(nt);
-    for (auto &s : scripts) { s.skew_ns = rng.below(200000); s.spin = (int)rng.below(2000); for (int i = 0; i < opsper; i++) { Op o; o.kind = (int)rng.below(4); o.key = (int)rng.below(KU.size()); if (rng.chance(1, 3)) o.key = (int)(round % KU.size()); o.n = (int)rng.below(1000); s.ops.push_back(o); } }
+    // every second round is "hot": all threads hammer ONE key with distinct claims (windows of a few instructions,
+    // e.g. a non-reentrant mode of a crypto call, need many overlapping calls of the same kind to show)
+    int hotkey = (round & 1) ? (int)((round / 2 + a.worker / 2) % KU.size()) : -1;
+    if (hotkey >= 0) { bool cheap = KU[hotkey].ks->kind == K_OCT; int n = cheap ? (a.thorough() ? 3000 : 600) : opsper;
+      for (size_t t = 0; t < scripts.size(); t++) { auto &s = scripts[t]; s.skew_ns = rng.below(20000); s.spin = 0; for (int i = 0; i < n; i++) { Op o; o.kind = (i & 1) ? OP_VERIFY_VALID : OP_GEN; o.key = hotkey; o.n = (int)(t * 100000 + i); s.ops.push_back(o); } }
+      st.cls("hot-rounds"); }
+    else for (auto &s : scripts) { s.skew_ns = rng.below(200000); s.spin = (int)rng.below(2000); for (int i = 0; i < opsper; i++) { Op o; o.kind = (int)rng.below(4); o.key = (int)rng.below(KU.size()); if (rng.chance(1, 3)) o.key = (int)(round % KU.size()); o.n = (int)rng.below(1000); s.ops.push_back(o); } }
     std::vector<std::vector<std::string>> expect(nt), got(nt);
     for (int t = 0; t < nt; t++) expect[t] = run_script(scripts[t], false);
     long ov0 = g_overlaps.load();
